@@ -14,6 +14,8 @@ def fb(x):
     return struct.unpack('>Q', struct.pack('>d', float(x)))[0]
 
 
+ODD_LINES = ['1e999', 'inf', '-Infinity', 'nan', '3.7', '1e5', '99999999999', '1_0', '', ' ', ',', '1,2,3',
+             '1e39', '-1e39', '0x10', '1,1e999', '2.5,inf', '5', '6,7']
 SCRIPT = {'lines': ['5', '7,8', 'abc'], 'rnd': [fb(0.25)] * 6, 'timer': [fb(1.5)] * 6,
           'inkey': ['a']}
 
@@ -47,6 +49,10 @@ ERR_PROGS = [
     ('SUB f(n%)\nIF n% > 0 THEN\nPRINT n%\nf n% - 1\nEND IF\nEND SUB\nf 3', None, 'recursion'),
     ('INPUT a%\nINPUT b%, c%\nPRINT a% + b% + c%', None, 'input'),
     ('x = RND\ny = TIMER\nPRINT x; y', None, 'rnd-timer'),
+    ('INPUT a%\nPRINT a%', None, 'input-int-odd-text'),
+    ('INPUT a&\nPRINT a&', None, 'input-long-odd-text'),
+    ('INPUT a!\nPRINT a!', None, 'input-single-odd-text'),
+    ('INPUT a#, b%\nPRINT a#; b%', None, 'input-double-int-odd-text'),
 ]
 # RESUME needs the debug section (C08 says so): these run with debug info only
 DBG_PROGS = [
@@ -81,7 +87,11 @@ def cases_for(progs, tier, tagidx, dbgs=(False, True)):
             for dbg in dbgs:
                 if tag == 'resume-next-without-debug-info' and dbg:
                     continue
-                out.append({'src': src, 'level': level, 'debug': dbg, 'script': SCRIPT,
+                sc = SCRIPT
+                if 'odd-text' in tag:
+                    sc = dict(SCRIPT)
+                    sc['lines'] = ODD_LINES
+                out.append({'src': src, 'level': level, 'debug': dbg, 'script': sc,
                             'max_ticks': 5000, 'tag': tag, 'expect': p[1] if tagidx == 2 else 'crash'})
     return out
 
